@@ -6,6 +6,7 @@
   commit was dropped). That the mapped object *is* the rewritten counterpart is C01/C02/C04.
 -/
 import Frrs.Filter
+import Frrs.Proofs.MapRoundTrip
 import Frrs.Proofs.Monotone
 namespace Frrs.C09
 open Frrs
@@ -135,5 +136,59 @@ theorem commitMap_prefix (g : Nat → Option Bytes) {a b : List (Bytes × Option
 /-- **a recorded ref rename stays recorded** -/
 theorem renames_never_retracted (o : FOpts) (f : Nat) (s : FState) (inp : Bytes) (x : Bytes × Bytes)
     (hx : x ∈ s.refRenames) : x ∈ (loop o f s inp).refRenames := (loop_resExt o f s inp).ren x hx
+
+/-! ### the map as the next run's input -/
+
+/-- the id pairs a commit-map states: the new id of every commit whose mark the importer resolved, the zero id for dropped ones -/
+def resolvedPairs (markId : Nat → Option Bytes) (pairs : List (Bytes × Option Nat)) : List (Bytes × Bytes) :=
+  pairs.filterMap fun p =>
+    match p.2 with
+    | some mk => (markId mk).map fun id => (p.1, id)
+    | none => some (p.1, zeroId)
+
+theorem commitMap_cons' (markId : Nat → Option Bytes) (old : Bytes) (m : Option Nat) (r : List (Bytes × Option Nat)) :
+    commitMap markId ((old, m) :: r) =
+      (match m with
+       | some mk => (match markId mk with | some id => old ++ [0x20] ++ id ++ [B.lf] | none => [])
+       | none => old ++ [0x20] ++ zeroId ++ [B.lf]) ++ commitMap markId r := by
+  cases m with
+  | none => simp [commitMap]
+  | some mk => cases h : markId mk <;> simp [commitMap, h]
+
+theorem renderMap_cons (p : Bytes × Bytes) (r : List (Bytes × Bytes)) :
+    renderMap (p :: r) = p.1 ++ [B.sp] ++ p.2 ++ [B.lf] ++ renderMap r := by
+  simp [renderMap]
+
+theorem commitMap_eq_render (markId : Nat → Option Bytes) (pairs : List (Bytes × Option Nat)) :
+    commitMap markId pairs = renderMap (resolvedPairs markId pairs) := by
+  induction pairs with
+  | nil => simp [commitMap, renderMap, resolvedPairs]
+  | cons p r ih =>
+    obtain ⟨old, m⟩ := p
+    rw [commitMap_cons', ih]
+    cases m with
+    | none =>
+      have : resolvedPairs markId ((old, none) :: r) = (old, zeroId) :: resolvedPairs markId r := by simp [resolvedPairs]
+      rw [this, renderMap_cons]; simp [B.sp]
+    | some mk =>
+      cases hm : markId mk with
+      | none =>
+        have : resolvedPairs markId ((old, some mk) :: r) = resolvedPairs markId r := by simp [resolvedPairs, hm]
+        rw [this]; simp [hm]
+      | some id =>
+        have : resolvedPairs markId ((old, some mk) :: r) = (old, id) :: resolvedPairs markId r := by simp [resolvedPairs, hm]
+        rw [this, renderMap_cons]; simp [B.sp, hm]
+
+/-- **the commit-map of one run is exactly what the next run's id translator loads**: if the original ids and the ids the
+    importer reports are hex strings, reading the file back (message.rs `from_debug_dir`) yields the stated pairs, in
+    order, lower-cased, with dropped commits recorded as "no new id" — nothing is lost, merged or invented between the two
+    runs. (`zeroId` is the translator's `nullOid`.) -/
+theorem next_run_reads_this_runs_map (markId : Nat → Option Bytes) (pairs : List (Bytes × Option Nat))
+    (h : ∀ p ∈ resolvedPairs markId pairs, HexStr p.1 ∧ HexStr p.2) (hne : resolvedPairs markId pairs ≠ []) :
+    ShMap.ofFile (commitMap markId pairs) = some ((resolvedPairs markId pairs).foldl ShMap.push {}) := by
+  rw [commitMap_eq_render]
+  exact ofFile_renderMap _ h hne
+
+example : zeroId = nullOid := by decide +kernel
 
 end Frrs.C09
